@@ -40,7 +40,18 @@ def literal_of(header_rest):
 
 
 def _one(a):
-    kind, key, left, right, base = a
+    kind, key, left, right, base = a[:5]
+    res = _one_raw(kind, key, left, right, base)
+    if res[2] == 'DIFF' and len(a) > 5 and a[5]:
+        # is the builder at least faithful to its own built-in variable table? then the discrepancy is the table's drift
+        # from the shipped tunables, not a resolution error
+        alt = _one_raw(kind, key, a[5], right, base)
+        if alt[2] == 'OK':
+            return res[:2] + ('DRIFT',) + res[3:]
+    return res
+
+
+def _one_raw(kind, key, left, right, base):
     A, e1 = dfax.compile_text(left, base)
     B, e2 = dfax.compile_text(right, base)
     if A is None or B is None:
@@ -89,6 +100,14 @@ def gen_preambles():
     return out
 
 
+def with_builtin(pre, builtin):
+    """the preamble with its tunables includes replaced by the builder's built-in table (own definitions kept)"""
+    own = [l for l in pre.split('\n') if not re.match(r'^\s*(#?include|abi)\b', l)]
+    defined = set(re.findall(r'^@\{(\w+)\}\s*=', '\n'.join(own), re.M))
+    table = [l for l in builtin.split('\n') if l and re.match(r'^@\{(\w+)\}', l).group(1) not in defined]
+    return 'abi <abi/4.0>,\n' + '\n'.join(table) + '\n' + '\n'.join(own) + '\n'
+
+
 def run(tier):
     ev = C.Evidence(PROP, tier); fnd = C.Findings(PROP)
     dists = cfgx.DISTS if tier == 'thorough' else ['arch', 'debian']
@@ -104,6 +123,7 @@ def run(tier):
     root = os.path.join(C.scratch(), 'c06'); os.makedirs(root, exist_ok=True)
     bins = gox.build(os.path.join(C.scratch(), 'gox'), ['applyx'])
     jobs = []; seen = set(); logical = 0
+    builtin = gox.jsonl(bins['applyx'], [{'op': 'tunables'}], env={'DISTRIBUTION': 'arch'})[0]['out']
     for c in cfgs:
         tree = trees[c]
         base = os.path.join(root, cfgx.tag(c))
@@ -124,7 +144,8 @@ def run(tier):
                     key = (C.sha(pre), lit, tun)
                     if lit and key not in seen:
                         seen.add(key)
-                        jobs.append(('att', '%s %s' % (cfgx.tag(c), name), pre + 'profile p @{exec_path} {\n}\n', pre + 'profile p ' + lit + ' {\n}\n', base))
+                        jobs.append(('att', '%s %s' % (cfgx.tag(c), name), pre + 'profile p @{exec_path} {\n}\n', pre + 'profile p ' + lit + ' {\n}\n', base,
+                                     with_builtin(pre, builtin) + 'profile p @{exec_path} {\n}\n'))
                     elif not lit:
                         fnd.report('attachment-dropped profile=%s' % name, '%s: source attaches %s to @{exec_path} but the built header has no attachment' % (cfgx.tag(c), name), {'config': c._asdict(), 'file': f})
         # exec directives: run the real directive on a one-line host inside the built tree
@@ -171,7 +192,8 @@ def run(tier):
             if key not in seen:
                 seen.add(key)
                 jobs.append(('exec', '%s %s #aa:exec %s' % (cfgx.tag(c), host, ' '.join(args)), pre + 'profile a {\n' + left_rules + '}\n',
-                             'abi <abi/4.0>,\ninclude <tunables/global>\nprofile a {\n' + rules + '\n}\n', base))
+                             'abi <abi/4.0>,\ninclude <tunables/global>\nprofile a {\n' + rules + '\n}\n', base,
+                             with_builtin(pre, builtin) + 'profile a {\n' + left_rules + '}\n'))
     # generated preambles through the real userspace builder
     gens = gen_preambles()
     if tier != 'thorough':
@@ -200,6 +222,11 @@ def run(tier):
         who = key.split(' ', 1)[1] if not key.startswith('generated') else key
         if verdict == 'COMPILE':
             fnd.report('reference-parser-rejects %s' % who, '%s: the reference parser cannot compile one side: %s' % (key, detail), {'case': key})
+        elif verdict == 'DRIFT':
+            cex, side = detail
+            fnd.report('%s cause=built-in-variable-table-drift' % ('attachment-differs' if kind == 'att' else 'exec-rules-differ'),
+                       '%s: %s is matched by the %s; the built text equals what the builder\'s built-in variable table (aa.DefaultTunables) yields, which differs from the tunables shipped for this target' % (key, cex, side),
+                       {'case': key, 'path': cex, 'side': side})
         elif verdict == 'DIFF':
             cex, side = detail
             if kind == 'att':
